@@ -397,8 +397,66 @@ def _flatten(v):
     return None
 
 
+def run_scan(job, tmp_root):
+    """supporting static fact for C15/C17: no object with static storage duration is writable.
+    Every library source (tests excluded) is compiled natively and its symbol table inspected: symbols in .data/.bss
+    (nm classes b B d D, plus common C) are mutable statics - file-scope or function-local."""
+    t0 = time.time()
+    wd = tempfile.mkdtemp(prefix="scan.", dir=tmp_root)
+    res = {"job": job.name, "mode": "SCAN", "enforce": None, "replace": [], "functions": job.functions, "bounded": None,
+           "tier": job.tier, "entry": job.entry, "src": job.src, "checker_cmd": "gcc -c <src>.c && nm <src>.o"}
+    try:
+        import glob as _g
+        # library sources: the *Test.c files and the varintCompare.c benchmark (a program with its own main) are not part of it
+        files = sorted(f for f in _g.glob(os.path.join(SRC, "*.c")) if not f.endswith("Test.c") and
+                       not re.search(r"^\s*int(32_t)?\s+main\s*\(", open(f, errors="replace").read(), re.M))
+        if len(files) < 10:
+            raise Undecided("only %d library sources found under %s" % (len(files), SRC))
+        failed, nsym = [], 0
+        for f in files:
+            o = os.path.join(wd, os.path.basename(f) + ".o")
+            rc, txt, _ = run(["gcc", "-std=gnu11", "-O0", "-c", "-I" + SRC, f, "-o", o], 300, wd)
+            if rc != 0:
+                raise Undecided("gcc failed on %s: %s" % (f, txt[-400:]))
+            rc, txt, _ = run(["nm", o], 60, wd)
+            if rc != 0:
+                raise Undecided("nm failed on %s" % o)
+            for line in txt.split("\n"):
+                parts = line.split()
+                if len(parts) >= 2:
+                    nsym += 1
+                    cls, name = parts[-2], parts[-1]
+                    if cls in ("b", "B", "d", "D", "C", "s", "S", "g", "G"):
+                        failed.append({"obligation": "static-storage:%s:%s" % (os.path.basename(f), name), "class": "assigns",
+                                       "description": "writable object with static storage duration `%s` (nm class %s) in %s" % (name, cls, os.path.basename(f)),
+                                       "status": "FAILURE", "location": {"file": f}, "inputs": {}})
+        res["obligations"] = len(files)
+        res["classes"] = {"assertion": len(files)}
+        res["samples"] = ["%d library sources, %d symbols inspected: none writable with static storage duration" % (len(files), nsym)]
+        res["solver"] = "nm"
+        res["solver_s"] = round(time.time() - t0, 2)
+        res["wall_s"] = res["solver_s"]
+        if failed:
+            res["outcome"] = "FAILED"
+            res["failed"] = failed
+            res["discharged"] = len(files) - len({f_["location"]["file"] for f_ in failed})
+        else:
+            res["outcome"] = "PROVED"
+            res["discharged"] = len(files)
+        return res
+    except Undecided as u:
+        res["outcome"] = "UNDECIDED"
+        res["reason"] = str(u)
+        res["wall_s"] = round(time.time() - t0, 2)
+        return res
+    finally:
+        shutil.rmtree(wd, ignore_errors=True)
+
+
 def run_job(job, tmp_root):
     """Returns dict(outcome=PROVED|FAILED|UNDECIDED, ...)"""
+    if job.mode == "SCAN":
+        return run_scan(job, tmp_root)
     t0 = time.time()
     wd = tempfile.mkdtemp(prefix=job.name.replace("/", "_") + ".", dir=tmp_root)
     res = {"job": job.name, "mode": job.mode, "enforce": job.enforce, "replace": job.replace,
